@@ -453,3 +453,82 @@ example : Gen.Lists.allPerColumn ⟨[[true, false, true], [false, true, true]], 
     = .ok [true, false] := by rfl
 
 end Fca.C05
+
+/-! ### the rest of the lists backend's surface, for the definitions GENERATED from the Python source
+
+  `_get_subtable`, `_get_item`, `T`, `to_list`, `==`, `len` and the `axis` dispatch of `all / any / sum` for
+  `axis = None` (and of `sum` for `axis = 0, 1`), as `harness/py2lean.py` translates their current source for a
+  `BinTableLists` receiver (index lists; slices are outside the translated subset); `Fca/Gen/EquivOps.lean` proves
+  them equal to the hand-written model, so the specification value is reached by the source-derived definition. -/
+namespace Fca.C05
+open Fca Fca.Spec.Table
+
+/-- `table[rows]` / `table[rows, cols]` with index lists: the sub-table of the selected cells -/
+theorem gen_lists_get_subtable_spec (t : Table) (hwf : t.WF) (rs : List Nat) (cols : Option (List Nat))
+    (hrs : ∀ i ∈ rs, i < t.height) (hc : OptIdx.Valid cols t.width) :
+    Gen.Lists.getSubtable t rs cols = .ok (sub t rs (cols.getD (allCols t))) := by
+  rw [Gen.Lists.getSubtable_eq_model t hwf rs cols hrs hc]
+  cases cols with
+  | none =>
+    have h := L.getitem_eq t hwf (.one (.sel (.idx rs))) hrs
+    simp only [L.getitem, getitemDispatch, Spec.Table.getitem, Res.table.injEq] at h
+    rw [Option.map_none, h]; rfl
+  | some cs =>
+    have h := L.getitem_eq t hwf (.two (.sel (.idx rs)) (.sel (.idx cs))) ⟨hrs, hc cs rfl⟩
+    simp only [L.getitem, getitemDispatch, Spec.Table.getitem, Res.table.injEq] at h
+    rw [Option.map_some, h]; rfl
+
+/-- `table[i, j]` -/
+theorem gen_lists_get_item_spec (t : Table) (hwf : t.WF) (i j : Nat) (hi : i < t.height) (hj : j < t.width) :
+    Gen.Lists.getItem t i j = .ok (t.get i j) := by
+  rw [Gen.Lists.getItem_eq_model t hwf i j hi hj]
+  have h := L.getitem_eq t hwf (.two (.int i) (.int j)) ⟨hi, hj⟩
+  simp only [L.getitem, getitemDispatch, Spec.Table.getitem, Res.bool.injEq] at h
+  rw [h]
+
+/-- `T` -/
+theorem gen_lists_transpose_spec (t : Table) (hwf : t.WF) :
+    Gen.Lists.transpose t = .ok (Spec.Table.transpose t) := by
+  rw [Gen.Lists.transpose_eq_model t hwf, (transpose_LB t).1]
+
+/-- `to_list()` -/
+theorem gen_lists_to_list_spec (t : Table) (hwf : t.WF) : Gen.Lists.toList t = .ok (Spec.Table.toList t) := by
+  rw [Gen.Lists.toList_eq_model t]
+  exact congrArg Except.ok (toList_spec t hwf .lists)
+
+/-- `==` between two lists-backed tables: same shape and same cells -/
+theorem gen_lists_eq_spec (t : Table) (hwf : t.WF) (o : Table) (ho : o.WF) :
+    Gen.Lists.tableEq t o = .ok (Spec.Table.eq t o) := by
+  rw [Gen.Lists.tableEq_eq_model t o, tableEq_spec t hwf .lists .lists o ho]
+
+/-- `len(table)` -/
+theorem gen_lists_len_spec (t : Table) : Gen.Lists.tableLen t = .ok t.height := Gen.Lists.tableLen_eq_model t
+
+section
+variable (t : Table) (hwf : t.WF) (rows cols : Option (List Nat))
+  (hr : OptIdx.Valid rows t.height) (hc : OptIdx.Valid cols t.width)
+include hwf hr hc
+
+/-- `all(None, rows, cols)`, `any(None, …)`, `sum(None, …)`, `sum(0, …)`, `sum(1, …)` as dispatched by
+    `AbstractBinTable.all / any / sum` on a `BinTableLists` -/
+theorem gen_lists_axis_dispatch_spec :
+    Gen.Lists.allAxisNone t rows cols = .ok (Spec.Table.all t (rows.getD (allRows t)) (cols.getD (allCols t))) ∧
+    Gen.Lists.anyAxisNone t rows cols = .ok (Spec.Table.any t (rows.getD (allRows t)) (cols.getD (allCols t))) ∧
+    Gen.Lists.sumAxisNone t rows cols = .ok (Spec.Table.sum t (rows.getD (allRows t)) (cols.getD (allCols t))) ∧
+    Gen.Lists.sumAxis0 t rows cols = .ok (Spec.Table.sumPerColumn t (rows.getD (allRows t)) (cols.getD (allCols t))) ∧
+    Gen.Lists.sumAxis1 t rows cols = .ok (Spec.Table.sumPerRow t (rows.getD (allRows t)) (cols.getD (allCols t))) := by
+  refine ⟨?_, ?_, ?_, ?_, ?_⟩
+  · rw [Gen.Lists.allAxisNone_eq_model t hwf rows cols hr hc, L.allAll_spec t hwf rows cols hr]
+  · rw [Gen.Lists.anyAxisNone_eq_model t hwf rows cols hr hc, L.anyAny_spec t hwf rows cols hr]
+  · rw [Gen.Lists.sumAxisNone_eq_model t hwf rows cols hr hc]
+    simp only [L.sumAll, Spec.Table.sum, L.sumPerRow_spec t hwf rows cols hr]
+  · rw [Gen.Lists.sumAxis0_eq_model t hwf rows cols hr hc, L.sumPerColumn_spec t rows cols]
+  · rw [Gen.Lists.sumAxis1_eq_model t hwf rows cols hr hc, L.sumPerRow_spec t hwf rows cols hr]
+
+end
+
+/-- the generated definitions compute: -/
+example : Gen.Lists.transpose ⟨[[true, false, true], [false, true, true]], 3⟩
+    = .ok ⟨[[true, false], [false, true], [true, true]], 2⟩ := by rfl
+
+end Fca.C05
